@@ -25,6 +25,9 @@ struct Active {
     ptype: u16,
     /// false once the train has been replaced on the receiver side (its id or slot was claimed by a newer PDU)
     live: bool,
+    /// a newer PDU with another fragment id mapping to the same slot was emitted (and fitted): the receiver
+    /// has dropped this train, its remaining packets belong to nothing
+    taken_over: bool,
 }
 
 #[derive(Clone, Debug)]
@@ -39,6 +42,8 @@ pub struct PktInfo {
     pub corrupted: Option<&'static str>,
     /// protocol type and label of the PDU this packet belongs to (continuation packets of a live train)
     pub train_meta: Option<(u16, Label)>,
+    /// continuation packet of a PDU whose memory slot was claimed by a newer PDU of ANOTHER fragment id
+    pub slot_taken_over: bool,
 }
 
 pub struct Source {
@@ -84,12 +89,12 @@ impl Source {
                 let r = guard(|| self.enc.encap_frag(&a.pdu, &a.ctx, &mut frame[off..off + limit]));
                 match r {
                     Ok(Ok(EncapStatus::CompletedPkt(n))) if n as usize <= limit && n >= 2 => {
-                        infos.push(PktInfo { off, len: n as usize, kind: Kind::End, frag_id: a.ctx.frag_id(), label: None, has_ext: false, corrupted: None, train_meta: if a.live { Some((a.ptype, a.label)) } else { None } });
+                        infos.push(PktInfo { off, len: n as usize, kind: Kind::End, frag_id: a.ctx.frag_id(), label: None, has_ext: false, corrupted: None, train_meta: if a.live { Some((a.ptype, a.label)) } else { None }, slot_taken_over: a.taken_over });
                         off += n as usize;
                         self.active.remove(i);
                     }
                     Ok(Ok(EncapStatus::FragmentedPkt(n, c))) if n as usize <= limit && n >= 2 => {
-                        infos.push(PktInfo { off, len: n as usize, kind: Kind::Inter, frag_id: a.ctx.frag_id(), label: None, has_ext: false, corrupted: None, train_meta: if a.live { Some((a.ptype, a.label)) } else { None } });
+                        infos.push(PktInfo { off, len: n as usize, kind: Kind::Inter, frag_id: a.ctx.frag_id(), label: None, has_ext: false, corrupted: None, train_meta: if a.live { Some((a.ptype, a.label)) } else { None }, slot_taken_over: a.taken_over });
                         off += n as usize;
                         self.active[i].ctx = c;
                     }
@@ -170,21 +175,27 @@ impl Source {
                 });
                 match r {
                     Ok(Ok(EncapStatus::CompletedPkt(n))) if n as usize <= limit && n >= 2 => {
-                        infos.push(PktInfo { off, len: n as usize, kind: Kind::Complete, frag_id, label: Some(label), has_ext, corrupted: None, train_meta: None });
+                        infos.push(PktInfo { off, len: n as usize, kind: Kind::Complete, frag_id, label: Some(label), has_ext, corrupted: None, train_meta: None, slot_taken_over: false });
                         off += n as usize;
                     }
                     Ok(Ok(EncapStatus::FragmentedPkt(n, c))) if n as usize <= limit && n >= 2 => {
-                        infos.push(PktInfo { off, len: n as usize, kind: Kind::First, frag_id, label: Some(label), has_ext, corrupted: None, train_meta: None });
+                        infos.push(PktInfo { off, len: n as usize, kind: Kind::First, frag_id, label: Some(label), has_ext, corrupted: None, train_meta: None, slot_taken_over: false });
+                        let label_in_full = frame[off] & 0x30 != 0x30;
                         off += n as usize;
                         self.active.retain(|a| a.ctx.frag_id() != frag_id);
                         let slots = self.slots;
                         for a in self.active.iter_mut() {
                             if a.ctx.frag_id() as usize % slots == frag_id as usize % slots {
                                 a.live = false;
+                                // only when the newer first fragment cannot have been refused for a label reason: it
+                                // carries its label in full (or is broadcast) on the wire
+                                if label_in_full && !has_ext && ptype >= 0x0600 {
+                                    a.taken_over = true;
+                                }
                             }
                         }
                         // (an explicit re-use label may be unresolvable: the receiver then has no live context)
-                        self.active.push(Active { pdu, ctx: c, label, ptype, live: label != Label::ReUse && !has_ext });
+                        self.active.push(Active { pdu, ctx: c, label, ptype, live: label != Label::ReUse && !has_ext, taken_over: false });
                     }
                     Ok(Err(_)) => {
                         if rng.chance(1, 3) {
@@ -461,6 +472,13 @@ fn check_peek(d: &PlainDec, pkt: &[u8], with_tail: &[u8], inf: &PktInfo, dres: &
         match inf.kind {
             Kind::Inter | Kind::End => {
                 // the PDU decap associates with this packet must be the sender's PDU of that fragment id
+                if vn == "alone" && inf.slot_taken_over && !cls.contains("before-decap") {
+                    if let Ok(Ok((DecapStatus::CompletedPkt(_, m), _))) | Ok(Ok((DecapStatus::FragmentedPkt(m), _))) = dres {
+                        rep.violation("C19", format!("decap-associates-another-pdu:slot-taken-over:{}", cls), || format!("fragment id {} ({}): the slot of this PDU was claimed by a newer PDU of another fragment id, yet decap accepted the packet (into a PDU with type {:#06x} / label {})", inf.frag_id, hex_short(buf, 24), m.protocol_type(), label_str(&m.label())), replay);
+                    } else {
+                        rep.count("peek.taken-over-rejected");
+                    }
+                }
                 if vn == "alone" {
                     if let (Some((pt, lb)), Some(m)) = (inf.train_meta, match dres {
                         Ok(Ok((DecapStatus::CompletedPkt(_, m), _))) => Some(m.clone()),
